@@ -2,6 +2,7 @@ import OnlVerif.Lemmas.KernelStep
 import OnlVerif.Lemmas.KAccess
 import OnlVerif.Lemmas.SplitStep
 import OnlVerif.Lemmas.SplitDemo
+import OnlVerif.Lemmas.SplitDemoTime
 import OnlVerif.Props.C01
 /-!
 # C03 — runs are reproducible and unaffected by where they are stopped and resumed
@@ -13,10 +14,15 @@ Determinism needs no theorem: the model is a function of the program and the ini
 clock, no hash order and no object identity in it — `run_deterministic` records that.  Hash-seed independence of
 the *implementation* is sampled by the correspondence check (fresh interpreters), not proved.
 
-`split_transparent` — that cutting a run into pieces yields the concatenation of the pieces' traces — is proved here
-for the two facts it rests on (`stop_is_deferred`, `sentinel_*`) and checked on generated split plans by the
-correspondence check against the implementation *and* against the model; the full simulation argument
-("agendas equal up to one sentinel") is stated in the comment at the end and is **not** proved.
+Split transparency — cutting a run into `step()`, `run(until=event)` and `run(until=number)` pieces yields the trace
+of the uninterrupted run — is proved in three stages (sections below; helper lemmas in `Lemmas/Split*.lean`):
+1. `step()` splits: `step_split_transparent`, `step_plan_transparent`, `run_budget_split`, `steps_then_run`;
+2. `run(until=event)`: `until_event_split_transparent` (the run returns in *exactly* a state of the uninterrupted run),
+   with the simulation lemma `until_event_sim_step`, the lockstep `until_event_lockstep`, and stale stops;
+3. `run(until=number)`: `until_time_split_transparent_partial` (a simulation up to the renaming of the event ids
+   allocated after the sentinel; partial: under well-scopedness hypotheses listed there).
+The comment at the end says exactly what remains open.  The correspondence check compares split and uninterrupted runs of
+the implementation with each other and with the model on generated split plans.
 -/
 
 namespace C03
@@ -223,16 +229,118 @@ example : SplitDemo.RunResult.val? (runAll SplitDemo.body 3 20 (SplitDemo.s2.add
     (SplitDemo.RunResult.st (runAll SplitDemo.body 3 20 (SplitDemo.s2.addCb SplitDemo.ev .stop))).now = 2 := by
   decide +kernel
 
+/-- **`run(until=e)` that ends with an exception has also followed the uninterrupted run** (a crashing callback, an
+empty agenda, a failed until-event): `k` normal steps in lockstep, then a step that ends in the same state up to stops,
+or an empty agenda in the same state. -/
+theorem until_event_split_raised (body : σ → Resume → Burst ℚ σ) (fuel n : Nat) (e : EvId) (s s' : KState ℚ σ) (x : Exc)
+    (hf : AllStopFree s) (hp : s.processed e = false) (h : runUntilEvent body fuel n e s = .raised x s') :
+    ∃ k s1, k < n ∧ stepN body fuel k s = .ok s1 ∧
+      ((step body fuel s1).st? = some s'.strip ∨ (step body fuel s1 = .empty ∧ s1 = s'.strip)) :=
+  runUntilEvent_raised body fuel n e s s' x hf hp h
+
+/-! ## Split transparency, stage 3: `run(until=number)` splits
+
+The sentinel is a fresh event record at index `u = events.size`: every event allocated afterwards has, in the split run,
+the id it has in the uninterrupted run plus one.  `c : SplitCfg σ` records a split (`c.u`, the sentinel's `eid` `c.eid0`,
+the time `c.t`, and `c.rσ`, the renaming of ids kept in local process states); `c.ρ = shAt c.u` is the order-preserving
+renaming; `c.T queued s` is the state of the split run that corresponds to the state `s` of the uninterrupted run (one
+extra record at `c.u`, all ids renamed — in callback lists, kinds, process table, agenda, request data, values, resource
+queues, shared slots and trace —, `eid` counter and later `eid`s one ahead, and, while `queued`, the agenda entry
+`(c.t, URGENT, c.eid0, c.u)` at its insertion-stable position).  `Lemmas/SplitSent*.lean` prove, function by function
+(all 18 API calls, bursts, `_resume`, interrupts, conditions, resource scans, the callback loop), that `c.T queued`
+commutes with the model on states after the split.  Hypotheses of the theorems:
+
+* `BodySim c.ρ c.rσ body` — the program treats event ids as opaque tokens: renaming the ids in its local state and in what
+  it is resumed with renames the ids in the calls it makes (and nothing else).  True of every Python generator (ids are
+  not observable there); it excludes model programs that compute with ids (`succeed (e + 1)`).
+* `c.Closed s` — the state at the split is well-scoped: it mentions no id `≥ events.size` and no `eid ≥ s.eid`.
+* `SortedAg s` — the agenda list is newest-first (`eid`s decreasing, below the counter); kept by every step.
+* `c.FuelAlong body fuel s` — `Condition._build_value` of a condition with id `cd` recurses with fuel `cd + 1`; in the split
+  run that is `cd + 2` for conditions created after the split; the hypothesis says one more unit changes nothing, in the
+  states of the uninterrupted run in which a `_build_value` runs (true whenever operands are older than their condition;
+  vacuous for conditions created before the split, `FuelOK_of_lt`, and when no `_build_value` is pending,
+  `stepFuelOK_of_noBuild`). -/
+
+/-- **The step that pops the sentinel does nothing else**: it advances the clock to `t`, marks the sentinel record processed
+and raises `StopSimulation(None)`; the state it leaves, `c.afterSentinel s`, is the uninterrupted state `s` up to the
+renaming, plus the dead sentinel record, with the clock at `t`. -/
+theorem sentinel_pop_only_stops (c : SplitCfg σ) (body : σ → Resume → Burst ℚ σ) (fuel : Nat) (s : KState ℚ σ) (h : c.Inv s)
+    (hp : popMin (c.T true s).agenda = some (c.sentEntry, s.agenda.map c.rnEntry)) :
+    step body fuel (c.T true s) = .stopped (.ok .none) (c.afterSentinel s) ∧
+      (c.afterSentinel s).now = c.t ∧ (c.afterSentinel s).trace = s.trace.map (rnObs c.ρ) ∧
+      (c.afterSentinel s).agenda = s.agenda.map c.rnEntry ∧ (c.afterSentinel s).ev c.u = SplitCfg.deadRec false :=
+  ⟨c.step_sentinel s body fuel h hp, rfl, rfl, rfl, c.ev_T_u false s h⟩
+
+/-- **One step while the sentinel is queued**: the split run pops the (renamed) entry the uninterrupted run pops and does
+the (renamed) step — unless the sentinel's key `(t, URGENT, eid0)` is smaller, then it pops the sentinel. -/
+theorem sentinel_queued_step (c : SplitCfg σ) (body : σ → Resume → Burst ℚ σ) (hB : BodySim c.ρ c.rσ body) (fuel : Nat)
+    (s : KState ℚ σ) (h : c.Inv s) (hs : SortedAg s) (hf : c.stepFuelOK body fuel s) :
+    step body fuel (c.T true s) =
+      match popMin s.agenda with
+      | none => .stopped (.ok .none) (c.afterSentinel s)
+      | some (m, _) =>
+        if (c.rnEntry m).lt c.sentEntry then c.mapT true (step body fuel s)
+        else .stopped (.ok .none) (c.afterSentinel s) :=
+  c.step_T_true s body hB fuel h hs hf
+
+/-- **One step after the sentinel is gone**: the split run does exactly the renamed step of the uninterrupted run, however
+it ends. -/
+theorem sentinel_gone_step (c : SplitCfg σ) (body : σ → Resume → Burst ℚ σ) (hB : BodySim c.ρ c.rσ body) (fuel : Nat)
+    (s : KState ℚ σ) (h : c.Inv s) (hf : c.stepFuelOK body fuel s) :
+    step body fuel (c.T false s) = c.mapT false (step body fuel s) :=
+  c.step_T_false s body hB fuel h hf
+
+/-- **`run(until=t)` is transparent up to the renaming of event ids** (partial: under the four hypotheses listed above).
+If `run(until=t)` returns from a well-scoped, stop-free state `s` with `now < t`, it returns `None` in the state
+`c.afterSentinel sk` where `sk` is the state the uninterrupted run reaches after some `k <` budget normal steps: **the
+trace of the split run is the trace of the uninterrupted run with the ids renamed**, the clock is `t`, and the next
+entry of the uninterrupted run (if any) is not due before the sentinel's key `(t, URGENT, eid0)`. -/
+theorem until_time_split_transparent_partial (c : SplitCfg σ) (body : σ → Resume → Burst ℚ σ) (fuel n : Nat)
+    (s s' : KState ℚ σ) (v : Val)
+    (hu : c.u = s.events.size) (he : c.eid0 = s.eid) (hlt : s.now < c.t)
+    (hc : c.Closed s) (hs : SortedAg s) (hns : AllStopFree s) (hB : BodySim c.ρ c.rσ body)
+    (hf : c.FuelAlong body fuel s) (h : runUntilTime body fuel n c.t s = .returned v s') :
+    v = .none ∧ ∃ k sk, k < n ∧ stepN body fuel k s = .ok sk ∧ s' = c.afterSentinel sk ∧
+      s'.trace = sk.trace.map (rnObs c.ρ) ∧ s'.now = c.t ∧
+      (∀ m rest, popMin sk.agenda = some (m, rest) → (c.rnEntry m).lt c.sentEntry = false) := by
+  obtain ⟨hv, k, sk, hk, h1, h2, _, _, h5⟩ := c.runUntilTime_transparent body fuel n s s' v hu he hlt hc hs hns hB hf h
+  exact ⟨hv, k, sk, hk, h1, h2, by rw [h2]; rfl, by rw [h2]; rfl, h5⟩
+
+/-- **… and every continuation stays the uninterrupted run with renamed ids, for ever**: `j + 1` further normal steps of
+the uninterrupted run from `sk` are `j + 1` normal steps from the state in which `run(until=t)` returned, to the
+corresponding state (`c.T false sj`: renamed ids, dead sentinel record, nothing else) — same trace up to the renaming. -/
+theorem after_time_split_lockstep_partial (c : SplitCfg σ) (body : σ → Resume → Burst ℚ σ) (hB : BodySim c.ρ c.rσ body)
+    (fuel j : Nat) (sk sj : KState ℚ σ) (hi : c.Inv sk) (hf : c.FuelAlong body fuel sk)
+    (h : stepN body fuel (j + 1) sk = .ok sj) :
+    stepN body fuel (j + 1) (c.afterSentinel sk) = .ok (c.T false sj) ∧
+      (c.T false sj).trace = sj.trace.map (rnObs c.ρ) :=
+  ⟨c.after_split_lockstep body hB fuel j sk sj hi hf h, rfl⟩
+
+/-- the hypotheses of `until_time_split_transparent_partial` are satisfiable: the state `s5` of the demo (after
+`step(); step(); run(until=ev)`) with the split `run(until=6)` -/
+example : ∃ k sk, k < 20 ∧ stepN SplitDemo.body 3 k SplitDemo.s5 = .ok sk ∧
+    SplitDemo.s6.trace = sk.trace.map (rnObs SplitDemo.cfg.ρ) ∧ SplitDemo.s6.now = 6 :=
+  let ⟨_, k, sk, hk, h1, _, h3, h4, _⟩ := until_time_split_transparent_partial SplitDemo.cfg SplitDemo.body 3 20
+    SplitDemo.s5 SplitDemo.s6 .none rfl rfl SplitDemo.s5_now SplitDemo.s5_closed SplitDemo.s5_sorted SplitDemo.s5_stopFree
+    SplitDemo.cfg_body_sim SplitDemo.s5_fuel SplitDemo.r6_returned
+  ⟨k, sk, hk, h1, h3, h4⟩
+
+/-- computed by the model: it is `k = 2`, and the trace has 10 observations -/
+example : SplitDemo.s6.trace = (SplitDemo.stOf (stepN SplitDemo.body 3 2 SplitDemo.s5) SplitDemo.s5).trace.map
+    (rnObs SplitDemo.cfg.ρ) ∧ SplitDemo.s6.trace.size = 10 := SplitDemo.s6_trace
+
 /-
-Not proved (stated for the record): `split_transparent` —
-  for every program and every split plan, the concatenation of the observation traces of the pieces equals the
-  observation trace of the uninterrupted run up to the same horizon, and the final states agree up to the sentinels.
-The intended proof is a simulation: the state of the split run equals the state of the uninterrupted run except for
-(1) one extra agenda entry `(t, URGENT, eid_u, sentinel)` while `now < t`, (2) one extra event record, (3) shifted `eid`
-values for entries pushed after the sentinel — which preserves their relative order —, and (4) one extra `.stop`
-callback on the until-event.  `until_time_plants_sentinel`, `stop_is_deferred`, `callbacks_after_stop_still_run` and C01's
-`pop_is_minimum` are the local facts it needs; the relation itself (an `eid`-renaming) is not formalised.  The
-correspondence check compares split and uninterrupted runs of the implementation with each other and with the model.
+What remains open for `split_transparent` (everything else above is proved for every program and every state):
+* stages 1 and 2 (`step()` and `run(until=event)` splits) are complete: the split run passes through *exactly* the states
+  of the uninterrupted run.
+* stage 3 (`run(until=number)`) is proved as a simulation up to the id renaming `shAt u`, under hypotheses that are
+  invariants of reachable states but are not proved to be: `c.Closed s` at the split (no id is used before it is
+  allocated) and `c.FuelAlong` (operands of a condition are older than the condition, so the id-dependent recursion fuel
+  of `Condition._build_value` is never the limit).  Discharging them needs one more walk through the model for the
+  well-scopedness invariant (`KRel` is too coarse for it: its `newEv`/`addCb` leaves allow arbitrary records and
+  callbacks).  `BodySim` (programs treat ids as opaque) is a genuine hypothesis on model programs, not a gap.
+* chaining several numeric splits needs `Closed` of the state *after* a split — the same missing invariant.
+* determinism across interpreter hash seeds is sampled by the correspondence check, not proved.
 -/
 
 end C03
